@@ -135,7 +135,7 @@ static void hSendDone(int fd, const void* buf, size_t len, long ret, int err) {
   (void)buf;
   Cm* m = byFd(fd); if (!m) return;
   hist.addf("    send(client%d, len=%zu, %s) -> %ld%s%s\n", m->id, len, m->inWrite ? "direct" : "backlog", ret, ret < 0 ? " errno=" : "", ret < 0 ? strerror(err) : "");
-  g_fp = mix(g_fp, (u64)(ret + 7) * 31 + (m->inWrite ? 1 : 0));
+  if (!(g_kernel && m->origin != 0)) g_fp = mix(g_fp, (u64)(ret + 7) * 31 + (m->inWrite ? 1 : 0));   // real kernel on TCP: the split varies with ACK timing, not part of the case identity
   if (ret > 0) {
     u64 before = m->backlog();
     if ((u64)ret > before) harnessBug("send returned more than was offered");
@@ -755,6 +755,10 @@ static void acceptExhCase(long idx) {
 static void randCase(long idx, bool kernel, bool fresh = false) {
   Rng r(opts.seed, fresh ? (kernel ? 1307 : 1306) : (kernel ? 1304 : 1303), (u64)idx);
   g_rng = &r; g_kernel = kernel;
+  // real kernel + loopback TCP: how the kernel splits the sends (and so the number of idle points and read calls) varies with the timing of ACKs; the hooks draw
+  // from a stream of their own there, so that the script of the case (operations, sizes, venues) is the same in every execution
+  Rng hookRng(opts.seed, 1308, (u64)idx);
+  if (fresh && kernel) g_rng = &hookRng;
   g_plan.clear();
   if (!kernel) {
     int len = 6 + (int)r.below(35);
@@ -815,6 +819,7 @@ static void randCase(long idx, bool kernel, bool fresh = false) {
   u64 fp = mix(g_fp, (u64)ncl);
   bool nontrivial = g_nonfull > 0 && g_drains > 0;
   if (fresh) fp = mix(fp, 77);
+  if (fresh && kernel) fp = mix(mix(1308, (u64)idx), (u64)ncl * 64 + (u64)steps);   // identity of the script: the observed interleaving depends on the kernel's TCP timing
   endWorld(r);
   if (idx % 211 == 0) sample("%s", hist.n > 1800 ? "(long history omitted)" : hist.c());
   endCase(fp, nontrivial);
